@@ -12,6 +12,7 @@ from __future__ import annotations
 
 import collections
 import os
+import re
 import shutil
 import subprocess
 import sys
@@ -47,7 +48,7 @@ def mutations(draw, toks):
             break
         kind = draw(st.sampled_from(['stray', 'swap', 'delete', 'drop-bracket', 'misspell',
                                      'duplicate', 'truncate', 'cut-token', 'stray',
-                                     'open-comment', 'line-comment']))
+                                     'open-comment', 'line-comment', 'glue']))
         i = draw(st.integers(0, len(toks) - 1))
         if kind == 'delete':
             log.append(('delete', i, toks[i]))
@@ -84,6 +85,14 @@ def mutations(draw, toks):
                 new = draw(st.sampled_from(MISSPELL[toks[j]]))
                 log.append(('misspell', j, toks[j], new))
                 toks[j] = new
+        elif kind == 'glue':
+            # a separator is lost: two words become one (`enumKind`, `constdouble`, `classA`)
+            idx = [j for j in range(len(toks) - 1)
+                   if re.match(r'.*\w$', toks[j], re.S) and re.match(r'\w', toks[j + 1])]
+            if idx:
+                j = draw(st.sampled_from(idx))
+                log.append(('glue', j, toks[j], toks[j + 1]))
+                toks[j:j + 2] = [toks[j] + toks[j + 1]]
         elif kind == 'open-comment':
             log.append(('open-comment', i))
             toks.insert(i, '/* unterminated')
